@@ -455,7 +455,9 @@ func (w *inotify) handleEvent(inEvent *unix.InotifyEvent, buf *[65536]byte, offs
 		}
 
 		err := w.remove(watch.path)
-		if err != nil && !errors.Is(err, ErrNonExistentWatch) {
+		// EINVAL means the kernel already dropped the watch: the moved file was
+		// deleted before we got here. That's not an error.
+		if err != nil && !errors.Is(err, ErrNonExistentWatch) && !errors.Is(err, unix.EINVAL) {
 			if !w.sendError(err) {
 				return Event{}, false
 			}
